@@ -308,6 +308,17 @@ def check_call(fq, args, kwargs=None, contract=None, fn=None):
                             continue
                         if not ok:
                             failures.append(("%s/%s" % (tag, nm), "result %s" % short(result)))
+    if not failures and raised is None and (c.get("pure") or c.get("modifies") == []) and not c.get("callee_events"):
+        # an observer (empty frame): asked again with the same arguments it must answer the same -- a memo, a position
+        # remembered on the object or a list reversed in place shows here
+        try:
+            again = call_with_timeout(fn, ba.args, ba.kwargs)
+            same = (again == result) and type(again) is type(result)
+        except Exception as ex:  # noqa
+            again, same = "raised %r" % (ex,), False
+        if not same:
+            failures.append(("frame/same-arguments-same-result", "first call returned %s, the same call again %s"
+                             % (short(result), short(again))))
     for p, v in before.items():
         if ba.arguments[p] != v:
             failures.append(("frame/writes-outside-modifies", "argument %s changed from %s to %s"
